@@ -448,7 +448,7 @@ var harnesses = []harness{
 		e.thread("Shutdown", e.shutdown)
 		e.finish(false)
 	}},
-	{Name: "S10", Desc: "outgoing Connect to a default peer || Disconnect of that peer (then Shutdown)", Overlap2: [2]string{"Connect", "Disconnect"}, Body: func(o *obs) {
+	{Name: "S10", Desc: "outgoing Connect to a default peer || IsMaxOutgoingDefaultConnectionsReached, Disconnect of that peer (then Shutdown)", Overlap2: [2]string{"Connect", "Disconnect"}, Body: func(o *obs) {
 		e := newEnv(o, false)
 		e.run()
 		ln, err := vnet.Listen("tcp", remote)
@@ -470,6 +470,7 @@ var harnesses = []harness{
 			call(o, "Connect", func() error { return e.pool.Connect(remote) })
 		})
 		e.thread("Disconnect", func() {
+			call(o, "IsMaxOutgoingDefaultConnectionsReached", func() error { e.pool.IsMaxOutgoingDefaultConnectionsReached(); return nil })
 			call(o, "Disconnect", func() error { return e.pool.Disconnect(remote, errors.New("harness disconnect")) })
 		})
 		e.wg.Wait()
